@@ -328,6 +328,26 @@ fn run_case(line: &str) -> String {
             ),
             'L' => canon_tree(&run_child(line, "main", false, &with(cli_args(&sp, None, false), &["--list"])), false),
             'K' => String::new(),
+            // combinations and orders of the action flags
+            'a' | 'b' | 'c' | 'd' | 'f' | 'g' | 'h' | 'j' | 'k' => {
+                let (nextest, flags): (bool, &[&str]) = match act {
+                    'a' => (false, &["--list", "--bench"]),
+                    'b' => (false, &["--bench", "--list"]),
+                    'c' => (true, &["--list", "--format", "terse", "--bench"]),
+                    'd' => (true, &["--bench", "--list", "--format", "terse"]),
+                    'f' => (false, &["--test", "--bench"]),
+                    'g' => (false, &["--bench", "--test"]),
+                    'h' => (false, &[]),
+                    'j' => (false, &["--list", "--test"]),
+                    _ => (true, &["--list", "--bench"]),
+                };
+                let o = run_child(line, "main", nextest, &with(cli_args(&sp, None, false), flags));
+                match act {
+                    'c' | 'd' => canon_terse(&o),
+                    'f' | 'g' | 'h' => canon_tree(&o, true),
+                    _ => canon_tree(&o, false),
+                }
+            }
             'D' => {
                 let o = run_child(line, "dump", false, &[]);
                 let mut s = o.stdout.lines().next().unwrap_or("").to_string();
